@@ -150,7 +150,7 @@ func c20readBack(rep *vh.Report, g *c20gen, img []byte, want []*c20entry, what s
 	}, func() {
 		rd := &tlog.Reader{ByteReader: &scriptReader{data: img, every: 1 + g.r.Intn(600), errAt: -1}, DialectRW: g.drw()}
 		if err := rd.Initialize(); err != nil {
-			rep.HarnessError(err.Error())
+			rep.Violation("what=roundtrip", "tlog.Reader.Initialize failed on a valid configuration: "+err.Error(), nil)
 			return
 		}
 		var kept []*tlog.Entry
@@ -221,10 +221,9 @@ func TestC20(t *testing.T) {
 		"distinct = distinct log images")
 	rep.Assume("reference log image = BE64(unix microseconds) || reference frame serialization")
 	seed := vh.Seed()
-	all, err := shippedMessages()
-	if err != nil {
-		t.Fatal(err)
-	}
+	all := shippedOrViolation(rep, t)
+	var err error
+	_ = err
 	msgs := pickMsgs(vh.Sub(seed, "c20-msgs"), all, 20)
 	genv, err := newGateEnv(msgs)
 	if err != nil {
@@ -263,7 +262,8 @@ func TestC20(t *testing.T) {
 		rw := &recWriter{}
 		w := &tlog.Writer{ByteWriter: rw, DialectRW: g.drw()}
 		if err := w.Initialize(); err != nil {
-			t.Fatal(err)
+			rep.Violation("what=image", "tlog.Writer.Initialize failed on a valid configuration: "+err.Error(), nil)
+			return
 		}
 		var image []byte
 		var accepted []*c20entry
